@@ -28,14 +28,16 @@ RULE = ('case = (max_batch_size, max_concurrent_batches, batch_timeout, retentio
         'suffix; random layer: programs of up to 10 calls over 3 args / 3 keys with bursts, shuffled result order, '
         'gaps on a grid around batch_timeout, retention_timeout and every armed deadline, sizes 1..5, concurrency 1..3, '
         'plus no-op events addressed to ended/unknown batches.  non-trivial = the batch function was invoked and at '
-        'least two callers were answered (Case_C04.nontrivial, inside Coq); distinct = distinct (case, trace) pairs')
+        'least two callers were answered (Case_C04.nontrivial, inside Coq); distinct = distinct (case, trace) pairs'
+        ' The random layer also contains Chain events (one task making up to 4 sequential calls, each in the continuation of the previous answer) and batch-function raises whose exception is also a KeyError.')
 EXHAUSTIVE_NOTE = ('all event lists of length <= D (D=5 quick, 6 thorough) with <= 3 calls over the enabled-event alphabet '
                    'described in the rule, for 8 configurations')
 ASSUMPTIONS = ['asyncio primitives (Queue, wait_for, Semaphore FIFO, shield, Future callbacks, call_later) are modelled, '
                'not verified; their behaviour on the exercised patterns is what the correspondence runs check',
                'the batch function raises / yields Exception subclasses only; what it does after its last yield is not observed',
                'batch_timeout >= 1 tick, max_batch_size >= 1, max_concurrent_batches >= 1',
-               'macro-step granularity: user code reacting inside the same loop iteration is not modelled (DESIGN §4)']
+               'macro-step granularity: of the user code that reacts inside the same loop iteration only the pattern "a task '
+               'calls the batcher again in the continuation of its answer" (Chain events) is modelled (DESIGN §4)']
 TRUSTED = ['harness/vloop.py (virtual-time loop), harness/batcher_drv.py (driver, canonicalisation: per macro step batch '
            'starts in order, completions sorted by caller id), coq/theories/Case_Batcher.v (agree + monitors)',
            'modelled, not verified: asyncio.Queue, wait_for/timeouts, Semaphore, shield, Future done-callbacks, call_later']
@@ -135,14 +137,24 @@ def gen_search(tier, seed):
     return out
 
 
-LEVEL_TEXT = ('AsyncBackgroundBatcher is modelled as an executable macro-step state machine (coq/theories/Batcher.v: open '
-              'batch with deadline, FIFO semaphore queue, running batches with their futs dictionaries, futures, retention '
-              'cache and timers, callers); props/C04.v proves by induction over ALL event lists and configurations that every '
-              'completed caller carries the outcome the batch function produced for its key in the batch that carried its '
-              'item, that a waiting caller always has its pending item in the open, a queued or a running batch, that the end '
-              'of a batch answers all its callers and that no background task dies.  Tied to /repo by running the real class '
-              'under a virtual-time loop on enumerated and random event lists and comparing the traces inside Coq; the '
-              'monitor ok_C04 judges the observed trace independently of the model.')
-LEVEL_NOTE = ('trusted: Coq kernel + vm_compute; asyncio primitives are modelled, validated only by the correspondence runs; '
-              'harness/vloop.py, harness/batcher_drv.py, coq/theories/Case_Batcher.v')
+LEVEL_TEXT = ('AsyncBackgroundBatcher is modelled as an executable macro-step state machine (coq/theories/Batcher.v: open batch '
+    'with deadline, FIFO semaphore queue, running batches with their futs dictionaries, futures, retention cache and '
+    'timers, callers incl. tasks that call again in the continuation of their answer).  props/C04.v proves, by '
+    'induction over ALL event lists without Cancel and all configurations with max_batch_size, max_concurrent_batches '
+    '>= 1 (invariant KInv, BatcherInv.v): own_outcome — every CallerDone i o of the trace is the outcome the batch '
+    "function produced for caller i's key in the unique batch (batch_of_unique) that carried the item of its future: "
+    'first yield for the key = Val v for Ret v, = Exception value for YieldedExc, raise while the key was unanswered '
+    'for RaisedExc, return without the key for Missing, a repeated/unknown key yielded while unanswered for the '
+    "KeyError outcome, never another key's result; always_answered_inv — a waiting caller's future is pending and its "
+    'item is in the open batch, a queued batch or the futs of a running batch; batch_end_answers — BFinish/BRaise of '
+    'a running batch answers all its items in that step; no_task_died.  Liveness is stated as these safety facts plus '
+    "C10's dispatch_deadline; that the batch function itself ends is the environment's obligation.  Tied to /repo by "
+    'running the real class under a virtual-time loop on enumerated and random event lists and comparing traces '
+    'inside Coq; the monitor ok_C04 judges the observed trace independently of the model (monitor_sound_partial: '
+    'acceptance implies no TaskDied, no double completion).')
+LEVEL_NOTE = ('trusted: Coq kernel + vm_compute; asyncio primitives (Queue, wait_for, FIFO Semaphore, shield, Future '
+    'done-callbacks, call_later, task wake-up order) are modelled in Batcher.v and validated only by the '
+    'correspondence runs; harness/vloop.py, harness/batcher_drv.py, coq/theories/Case_Batcher.v (agree + monitors).  '
+    'Monitor soundness is proved only for the simple conjuncts (monitor_sound_partial); the other conjuncts are tied '
+    'to the theorems through agree (model trace = observed trace) on every case')
 TECHNIQUE = 'Coq proof (inductive invariant over a macro-step model) + differential correspondence evaluated by vm_compute'
